@@ -20,6 +20,16 @@ CRATES = ["cbc", "pcbc", "ige", "cfb-mode", "cfb8", "ofb", "ctr", "cts", "belt-c
 PUB_FN = re.compile(r"^\s*pub\s+(?:const\s+|unsafe\s+)*fn\s+(\w+)")
 PUB_TY = re.compile(r"^\s*pub\s+(struct|enum|trait|type|const|static|mod|use)\s+([\w:{}, *]+)")
 IMPL = re.compile(r"^\s*(?:unsafe\s+)?impl\b(.*)$")
+DERIVE = re.compile(r"^\s*#\[derive\((.*?)\)\]")
+TYDEF = re.compile(r"^\s*(?:pub(?:\([^)]*\))?\s+)?(?:struct|enum|union)\s+(\w+)")
+
+
+def norm_impl(head):
+    """'fmt::Debug for Encryptor' -> 'Debug for Encryptor' (a derive and a hand-written impl are the same surface)"""
+    if " for " not in head:
+        return head
+    tr, ty = head.split(" for ", 1)
+    return "%s for %s" % (tr.strip().split("::")[-1], ty.strip().split("::")[-1])
 
 
 def strip_generics(s):
@@ -42,12 +52,23 @@ def scan_file(path):
         return items
     cur_impl = None
     in_test = False
+    derives = []
     for i, ln in enumerate(lines):
         if "#[cfg(test)]" in ln:
             in_test = True
         if in_test:
             continue
         code = ln.split("//")[0]
+        m = DERIVE.match(code)
+        if m:
+            derives += [d.strip().split("::")[-1] for d in m.group(1).split(",") if d.strip()]
+            continue
+        m = TYDEF.match(code)
+        if m and derives:
+            for d in derives:
+                items.append("impl %s for %s" % (d, m.group(1)))
+        if m:
+            derives = []
         m = IMPL.match(code)
         if m:
             # join continuation lines up to the opening brace
@@ -58,9 +79,9 @@ def scan_file(path):
                 head += " " + lines[j].split("//")[0]
             head = head.split("{")[0].split(" where ")[0]
             head = " ".join(strip_generics(head).split())
-            cur_impl = head
+            cur_impl = head.split(" for ", 1)[1].split("::")[-1].strip() if " for " in head else head
             if " for " in head:
-                items.append("impl " + head)
+                items.append("impl " + norm_impl(head))
             continue
         m = PUB_FN.match(code)
         if m:
